@@ -130,23 +130,25 @@ def run(ctx):
 
 
 def _guarded_index(F, top, g, c):
-    """is the index call (in g, possibly a closure of top) control dependent on an `idx < len(topics)` edge"""
+    """is the index call (in g, possibly a closure of top) control dependent on an `idx < len(X)` edge where X is the
+    indexed collection (same element type: the log's topics, not the filter's)"""
+    want_ty = (c.self_ty or "")
+
+    def same_collection(fn, len_term):
+        # the len() call's receiver type must be the indexed collection's type
+        for x in calls_in(len_term):
+            if x[1].split("::")[-1] == "len" and x[3]:
+                return x[3].replace(" ", "") == want_ty.replace(" ", "")
+        return False
+
     def has_guard(fn, bb):
-        seen = set()
-        st = [bb]
-        while st:
-            x = st.pop()
-            if x in seen:
+        from terms import edge_dominates
+        for (b2, s2, fm, line) in edge_forms(fn):
+            if fm.rel != "<=":
                 continue
-            seen.add(x)
-            for (a, s) in control_deps(fn).get(x, set()):
-                for (b2, s2, fm, line) in edge_forms(fn):
-                    if b2 == a and s2 == s and fm.rel == "<=":
-                        ts = {show(t): cf for t, cf in fm.lin.terms.items()}
-                        lens = [t for t in ts if "len" in t and "topics" in t]
-                        if lens and ts[lens[0]] == -1 and fm.lin.k == 1 and len(ts) == 2:
-                            return True
-                st.append(a)
+            lens = [(t, cf) for t, cf in fm.lin.terms.items() if "len(" in show(t) and same_collection(fn, t)]
+            if lens and lens[0][1] == -1 and fm.lin.k == 1 and len(fm.lin.terms) == 2 and edge_dominates(fn, (b2, s2), bb):
+                return True
         return False
     if has_guard(g, c.bb):
         return True
